@@ -144,7 +144,9 @@ func (pr *Pruned) foldCond(v ssa.Value, depth int) (bool, bool) {
 	return false, false
 }
 
-func (pr *Pruned) EdgeLive(from, to *ssa.BasicBlock) bool { return pr.liveEdge[[2]int{from.Index, to.Index}] }
+func (pr *Pruned) EdgeLive(from, to *ssa.BasicBlock) bool {
+	return pr.liveEdge[[2]int{from.Index, to.Index}]
+}
 
 // LiveInstrs iterates the instructions of live blocks.
 func (pr *Pruned) LiveInstrs(f func(in ssa.Instruction)) {
@@ -193,7 +195,7 @@ type ReachOpts struct {
 	FollowGo    bool // descend into spawned functions
 	OnlyFg      bool
 	Classify    func(fn *ssa.Function, in ssa.Instruction) string // "" = not a site
-	StopAt      func(callee *ssa.Function) bool                    // do not descend into these callees
+	StopAt      func(callee *ssa.Function) bool                   // do not descend into these callees
 	CalleeGuard func(call ssa.CallInstruction, callee *ssa.Function) bool
 }
 
